@@ -39,16 +39,16 @@ theorem position_kinematics (x : Fin 17 → ℝ) (u : Fin 4 → ℝ) (p : Fin 39
 /-! ## motors: first-order relaxation toward the command, spin-up / spin-down time constant -/
 theorem motor_0 (x : Fin 17 → ℝ) (u : Fin 4 → ℝ) (p : Fin 39 → ℝ) :
     quadrotor.f.x_dot_13 x u p = (if 0 < u 0 - x 13 then 1 / p 0 else 1 / p 1) * (u 0 - x 13) := by
-  simp only [cas_defs, cas_real]
+  simp only [cas_defs, cas_real] <;> (try ring1)
 theorem motor_1 (x : Fin 17 → ℝ) (u : Fin 4 → ℝ) (p : Fin 39 → ℝ) :
     quadrotor.f.x_dot_14 x u p = (if 0 < u 1 - x 14 then 1 / p 0 else 1 / p 1) * (u 1 - x 14) := by
-  simp only [cas_defs, cas_real]
+  simp only [cas_defs, cas_real] <;> (try ring1)
 theorem motor_2 (x : Fin 17 → ℝ) (u : Fin 4 → ℝ) (p : Fin 39 → ℝ) :
     quadrotor.f.x_dot_15 x u p = (if 0 < u 2 - x 15 then 1 / p 0 else 1 / p 1) * (u 2 - x 15) := by
-  simp only [cas_defs, cas_real]
+  simp only [cas_defs, cas_real] <;> (try ring1)
 theorem motor_3 (x : Fin 17 → ℝ) (u : Fin 4 → ℝ) (p : Fin 39 → ℝ) :
     quadrotor.f.x_dot_16 x u p = (if 0 < u 3 - x 16 then 1 / p 0 else 1 / p 1) * (u 3 - x 16) := by
-  simp only [cas_defs, cas_real]
+  simp only [cas_defs, cas_real] <;> (try ring1)
 
 /-- a motor speed moves toward its command and never overshoots in sign (monotone relaxation) -/
 theorem motor_monotone (c w tu td : ℝ) (htu : 0 < tu) (htd : 0 < td) :
@@ -188,12 +188,12 @@ theorem accel_free_fall (x : Fin 17 → ℝ) (u : Fin 4 → ℝ) (p : Fin 39 →
     quadrotor.g_accel.y_0 x u p 0 dt = 0 ∧ quadrotor.g_accel.y_1 x u p 0 dt = 0
       ∧ quadrotor.g_accel.y_2 x u p 0 dt = 0 := by
   obtain ⟨a, b, c, d⟩ := hmot
-  refine ⟨?_, ?_, ?_⟩ <;> simp [cas_defs, cas_real, habove, a, b, c, d, hdrag]
+  refine ⟨?_, ?_, ?_⟩ <;> simp [cas_defs, cas_real, habove, a, b, c, d, hdrag] <;> (try ring1)
 
 /-- the noise-free gyro reads the body rate -/
 theorem gyro_noise_free (x : Fin 17 → ℝ) (u : Fin 4 → ℝ) (p : Fin 39 → ℝ) (dt : ℝ) :
     quadrotor.g_gyro.y_0 x u p 0 dt = x 10 ∧ quadrotor.g_gyro.y_1 x u p 0 dt = x 11
       ∧ quadrotor.g_gyro.y_2 x u p 0 dt = x 12 := by
-  refine ⟨?_, ?_, ?_⟩ <;> simp [cas_defs, cas_real]
+  refine ⟨?_, ?_, ?_⟩ <;> simp [cas_defs, cas_real] <;> (try ring1)
 
 end C16
